@@ -878,29 +878,29 @@ MANIFEST_TEXT = {
             "technique": "Lean 4 proof (induction on fuel, cursor invariant; validator translated from the source by rs2lean.py and proved equal to the model) + model/implementation correspondence"},
     "C02": {"text": "Lean theorem for all byte strings: the model's parse succeeds if and only if the declarative policy WF holds (names by inductive relations with the strictly-backward / 16-pointer / no-root-target discipline, label and name limits, forbidden characters; pointer-free DNAME targets; per-type rdata shapes; root-named single OPT in the additional section with options tiling its data; QR gating; one IN question; nothing left over) - both directions, by induction on fuel / on derivations. Verdicts of the real parser are compared in both directions with the model and with an independent executable statement of the policy (Python recogniser) on structured, single-point-damaged, boundary (incl. re-entering names, pointer ladders) and arbitrary packets. The validator of the current source is translated to Lean from /repo's text on every run (rs2lean.py) and proved equal to the model: source_parse_ok_iff_wf, source_name_ok_iff_valid, source_plain_name_ok_iff state the equivalence about the translated code itself.",
             "note": NOTE, "technique": "Lean 4 proof of parse-ok iff well-formed (name-walker iff, per-type rules, option tiling), stated also about the validator translated from the source by rs2lean.py (Tie/Parse.lean) + correspondence + independent recogniser"},
-    "C03": {"text": "Proved for every accepted packet (via the C02 equivalence and the decoding lemmas copyUncompressedName_valid / rawNameToStr_valid / skipName_valid): the question walk yields exactly the question; the answer, authority and additional walks yield exactly the records of the policy relation in wire order, with OPT included and with OPT skipped wherever it sits; on each record the owner name (wire and lowercase dotted form), type, class, TTL, data length, raw data and address accessors return the values at the record's positions and never panic; the EDNS option walk yields exactly the options tiling the OPT data (nothing without OPT); the section accessor reports the record's section. Model of the four iterators and all accessors; on every generated accepted packet the real walks/accessors, the model's and the reference decoder's RFC 1035 reading agree (OPT absent/first/middle/last, chained pointers, pointers into rdata).",
+    "C03": {"text": "Proved for every accepted packet (via the C02 equivalence and the decoding lemmas copyUncompressedName_valid / rawNameToStr_valid / skipName_valid): the question walk yields exactly the question; the answer, authority and additional walks yield exactly the records of the policy relation in wire order, with OPT included and with OPT skipped wherever it sits; on each record the owner name (wire and lowercase dotted form), type, class, TTL, data length, raw data and address accessors return the values at the record's positions and never panic; the EDNS option walk yields exactly the options tiling the OPT data (nothing without OPT); the section accessor reports the record's section. Model of the four iterators and all accessors; on every generated accepted packet the real walks/accessors, the model's and the reference decoder's RFC 1035 reading agree (OPT absent/first/middle/last, chained pointers, pointers into rdata). Tie to the source: the name readers (raw_name_len, raw_name_len_after_decompression, copy_uncompressed_name, raw_name_to_str) are re-translated from /repo's text on every run and proved equal to the model's (source_reader_tie, source_name_text).",
             "note": NOTE, "technique": "Lean 4 proof (walk/decoding lemmas over the policy derivation) + model/implementation correspondence + reference decoder oracle"},
     "C04": {"text": "Lean theorems for every accepted packet: transaction id, opcode, rcode, response bit, each bit of the 32-bit flag word (opcode/rcode masked, EDNS flags in the upper half), DNSSEC indicator (AD for responses, DO for queries), question in raw / raw-without-root / lowercase-text form with type and class (cache empty and filled), and EDNS start, option count, extended rcode, version, flags and payload size equal the values at the positions the declarative policy assigns - those of the single OPT record, or none/0/512 without one. Real getters compared with the model and with values decoded independently from the bytes by div/mod. The header getters are translated from /repo's text on every run and proved equal to the model's (Tie/Header.lean): source_header_summary.",
             "note": NOTE, "technique": "Lean 4 proof (EDNS state tracking through the validator, bit lemmas, decoding lemmas) + model/implementation correspondence + div/mod oracle"},
-    "C05": {"text": "Lean theorems for every accepted packet: decompression succeeds; its output is the header followed by the canonical pointer-free form of the question and of every record in wire order (same labels in every owner and NS/CNAME/PTR/MX/SOA name, fixed fields and all other data incl. OPT verbatim, data length recomputed); the output satisfies the acceptance policy (hence is accepted), its records have the same types and are their own canonical forms (no compression pointer in any name), a second decompression returns it unchanged, and every record boundary / the question / the end of the input is carried to the corresponding boundary of the output. Real output byte-identical to the model's on every generated accepted packet and boundary; the reference decoder compares the decoded messages.",
+    "C05": {"text": "Lean theorems for every accepted packet: decompression succeeds; its output is the header followed by the canonical pointer-free form of the question and of every record in wire order (same labels in every owner and NS/CNAME/PTR/MX/SOA name, fixed fields and all other data incl. OPT verbatim, data length recomputed); the output satisfies the acceptance policy (hence is accepted), its records have the same types and are their own canonical forms (no compression pointer in any name), a second decompression returns it unchanged, and every record boundary / the question / the end of the input is carried to the corresponding boundary of the output. Real output byte-identical to the model's on every generated accepted packet and boundary; the reference decoder compares the decoded messages. Tie to the source: copy_uncompressed_name and the name-length readers are re-translated from /repo's text on every run and proved equal to the model's (source_reader_tie).",
             "note": NOTE, "technique": "Lean 4 proof (walks as folds, canonical-form relation, translation invariance of the policy under copying, determinism of layouts) + model/implementation correspondence + reference decoder oracle"},
-    "C06": {"text": "Lean theorems for every accepted pointer-free packet: compress() (model, with the 32-entry depth-tracked suffix dictionary) succeeds; the output is no longer than the input, satisfies the acceptance policy, keeps the 12 header bytes and the question byte for byte, and its records are one by one the input's up to the case of names - each name decodes under the validator's pointer discipline to labels equal up to ASCII case (so every pointer designates a name equal to the suffix it stands for), everything else including OPT is identical; decompressing the output gives the input up to name case. Invariant: every committed dictionary entry designates a place in the output where a name equal up to case decodes with the recorded depth (< 16 to be pointed at). Real output byte-identical to the model's on random messages and on the dictionary families (31..70 suffixes, 126..255-byte suffixes, nesting to 40, offsets beyond 16383, mixed case, OPT anywhere); oracle checks acceptance, no growth, message equality up to case, question bytes.",
+    "C06": {"text": "Lean theorems for every accepted pointer-free packet: compress() (model, with the 32-entry depth-tracked suffix dictionary) succeeds; the output is no longer than the input, satisfies the acceptance policy, keeps the 12 header bytes and the question byte for byte, and its records are one by one the input's up to the case of names - each name decodes under the validator's pointer discipline to labels equal up to ASCII case (so every pointer designates a name equal to the suffix it stands for), everything else including OPT is identical; decompressing the output gives the input up to name case. Invariant: every committed dictionary entry designates a place in the output where a name equal up to case decodes with the recorded depth (< 16 to be pointed at). Real output byte-identical to the model's on random messages and on the dictionary families (31..70 suffixes, 126..255-byte suffixes, nesting to 40, offsets beyond 16383, mixed case, OPT anywhere); oracle checks acceptance, no growth, message equality up to case, question bytes. Tie to the source: the dictionary's case-insensitive comparison and the name readers are re-translated from /repo's text on every run and proved equal to the model's (source_reader_tie).",
             "note": NOTE, "technique": "Lean 4 proof (dictionary invariant, emission lemmas, case-fold comparison soundness, parametricity in the output) + model/implementation correspondence + reference decoder oracle"},
-    "C07": {"text": "Lean theorems for every accepted packet, every well-formed pointer-free non-root source/target and both modes: the renamer (model: replace_raw, per-type data lengths, OPT in place, the compressor's dictionary) either returns a packet that satisfies the acceptance policy, keeps the header bytes, counts and record order, and whose question, owner names and NS/CNAME/PTR/MX/SOA names are exactly the renamings of the input's (a name, or in suffix mode a suffix on a label boundary, equal to the source up to case is replaced by the target; every other name kept) up to ASCII case with all other bytes incl. OPT identical, or fails with InvalidName because a renamed name would exceed 255 bytes; self-renaming never fails and changes nothing up to case. Real output byte-identical to the model's; oracle compares the decoded result with the specified renaming of the decoded input (matches at every depth, near-misses, case, growth past 255).",
+    "C07": {"text": "Lean theorems for every accepted packet, every well-formed pointer-free non-root source/target and both modes: the renamer (model: replace_raw, per-type data lengths, OPT in place, the compressor's dictionary) either returns a packet that satisfies the acceptance policy, keeps the header bytes, counts and record order, and whose question, owner names and NS/CNAME/PTR/MX/SOA names are exactly the renamings of the input's (a name, or in suffix mode a suffix on a label boundary, equal to the source up to case is replaced by the target; every other name kept) up to ASCII case with all other bytes incl. OPT identical, or fails with InvalidName because a renamed name would exceed 255 bytes; self-renaming never fails and changes nothing up to case. Real output byte-identical to the model's; oracle compares the decoded result with the specified renaming of the decoded input (matches at every depth, near-misses, case, growth past 255). Tie to the source: Renamer::replace_raw and the compressor's case-insensitive comparison are re-translated from /repo's text on every run and proved equal to the model's (source_replace_raw, source_reader_tie).",
             "note": NOTE, "technique": "Lean 4 proof (replace_raw characterisation, rename relation, compressor invariant reused) + model/implementation correspondence + reference decoder oracle"},
-    "C08": {"text": "Lean theorems: the invariant Consistent (plain object: header, question, three lists of canonical record pieces with the section starts and counts that follow from them; cleared may-contain-pointers flag; question cache empty or right; EDNS summary = the one the additional pieces determine) implies that the bytes are accepted by the parser and that a fresh parse reports exactly the section starts and the EDNS summary (position and count of options, extended rcode, version, flags, payload size) the object holds; counts = numbers of records, absent start iff empty section, bytes pointer-free, cached question = uncached question. The invariant holds after decompression/recompute of any accepted packet and is preserved by insert (3 sections), delete (including the OPT record), set_rr_ttl, set_rr_ip, set_raw_name (after which the cursor still designates the record and next yields the one that followed) and the header setters; a successful object-level rename leaves exactly the view of a fresh parse. Sequences: run_total / run_inv over the script semantics of Theorems/C08Seq.lean: no allowed script panics and every one ends consistent (any finite list of open/next/close/delete/set-TTL/set-address/set-name/insert/header-setter/recompute operations satisfying the documented preconditions); by-design findings KF1-KF6 excluded by the preconditions. State-machine model (packet object + one cursor) of every mutator; after every operation of every script the real object's bytes, public fields, cache and cursor equal the model's, and the oracle re-derives the view from the bytes alone.",
+    "C08": {"text": "Lean theorems: the invariant Consistent (plain object: header, question, three lists of canonical record pieces with the section starts and counts that follow from them; cleared may-contain-pointers flag; question cache empty or right; EDNS summary = the one the additional pieces determine) implies that the bytes are accepted by the parser and that a fresh parse reports exactly the section starts and the EDNS summary (position and count of options, extended rcode, version, flags, payload size) the object holds; counts = numbers of records, absent start iff empty section, bytes pointer-free, cached question = uncached question. The invariant holds after decompression/recompute of any accepted packet and is preserved by insert (3 sections), delete (including the OPT record), set_rr_ttl, set_rr_ip, set_raw_name (after which the cursor still designates the record and next yields the one that followed) and the header setters; a successful object-level rename leaves exactly the view of a fresh parse. Sequences: run_total / run_inv over the script semantics of Theorems/C08Seq.lean: no allowed script panics and every one ends consistent (any finite list of open/next/close/delete/set-TTL/set-address/set-name/insert/header-setter/recompute operations satisfying the documented preconditions); by-design findings KF1-KF6 excluded by the preconditions. State-machine model (packet object + one cursor) of every mutator; after every operation of every script the real object's bytes, public fields, cache and cursor equal the model's, and the oracle re-derives the view from the bytes alone. Tie to the source: insert_rr, recompute, rrcount_inc, rrcount_dec and insertion_offset (with the count writers they call) are re-translated from /repo's Rust text by rs2lean.py on every run and proved equal to the model functions these theorems are about (Tie/Counts.lean, Tie/Insert.lean: source_insert_rr, source_counts_tie, source_recompute; only Compress::uncompress inside them is the model's).",
             "note": NOTE, "technique": "Lean 4 proof (representation invariant incl. EDNS summary as a function of the pieces, preserved by every mutator) + step-wise model/implementation correspondence on operation scripts + reference decoder oracle"},
-    "C09": {"text": 'Lean theorems on the piece-list representation of pointer-free objects: insert appends exactly the given record and raises only that count; delete removes exactly the record under the cursor and lowers only that count; set_rr_ttl / set_rr_ip replace exactly the TTL / address bytes of that record; set_raw_name replaces exactly its owner name for growing, shrinking and equal lengths; header setters touch bytes 0-3 only; everything else (other records and their order, question, other header fields, EDNS summary fields) is equal; on a still-flagged (possibly compressed) object the first set_raw_name/delete first turns it into the plain object of the canonical pieces with the cursor carried to the same record. Exclusions are the by-design findings KF1-KF6 (KF6: insert_rr of a record built with RR::new that the validator does not admit; admissible records built that way are exercised by the `insertrr` script operation and judged by the oracle). Same scripts as C08: after every operation the decoded message must be the message before with exactly the specified change (abstract list operation on the decoded message); operations that have no ground to be refused must succeed (a name that is not longer than the one it replaces, on packets of any size; a valid record that fits, into sections of 253-300 records).',
+    "C09": {"text": 'Lean theorems on the piece-list representation of pointer-free objects: insert appends exactly the given record and raises only that count; delete removes exactly the record under the cursor and lowers only that count; set_rr_ttl / set_rr_ip replace exactly the TTL / address bytes of that record; set_raw_name replaces exactly its owner name for growing, shrinking and equal lengths; header setters touch bytes 0-3 only; everything else (other records and their order, question, other header fields, EDNS summary fields) is equal; on a still-flagged (possibly compressed) object the first set_raw_name/delete first turns it into the plain object of the canonical pieces with the cursor carried to the same record. Exclusions are the by-design findings KF1-KF6 (KF6: insert_rr of a record built with RR::new that the validator does not admit; admissible records built that way are exercised by the `insertrr` script operation and judged by the oracle). Same scripts as C08: after every operation the decoded message must be the message before with exactly the specified change (abstract list operation on the decoded message); operations that have no ground to be refused must succeed (a name that is not longer than the one it replaces, on packets of any size; a valid record that fits, into sections of 253-300 records). Tie to the source: insert_rr, recompute, rrcount_inc, rrcount_dec and insertion_offset (with the count writers they call) are re-translated from /repo\'s Rust text by rs2lean.py on every run and proved equal to the model functions these theorems are about (Tie/Counts.lean, Tie/Insert.lean: source_insert_rr, source_counts_tie, source_recompute; only Compress::uncompress inside them is the model\'s).',
             "note": NOTE, "technique": 'Lean 4 proof (piece shape lemmas, replace/delete/insert on the piece lists, resize-then-write byte lemma, decompress-first step) + step-wise correspondence + abstract-message oracle'},
-    "C10": {"text": 'Lean theorems: insertion never yields more than 8192 bytes for any object and reports PacketTooLarge instead; a failing insert_rr on a pointer-free object (too large, second question, full section), delete/set_raw_name through a tombstoned cursor, an invalid or over-long name, set_rr_ip with the wrong family, and an overflowing rename all return the object as it was. Scripts biased to failing arguments and packets around/beyond 8192 and 65535 bytes: every failed call must leave the decoded message unchanged and the object consistent. Not proved (correspondence only): malformed text at the object API, failures after the decompress-first step.',
+    "C10": {"text": 'Lean theorems: insertion never yields more than 8192 bytes for any object and reports PacketTooLarge instead; a failing insert_rr on a pointer-free object (too large, second question, full section), delete/set_raw_name through a tombstoned cursor, an invalid or over-long name, set_rr_ip with the wrong family, and an overflowing rename all return the object as it was. Scripts biased to failing arguments and packets around/beyond 8192 and 65535 bytes: every failed call must leave the decoded message unchanged and the object consistent. Not proved (correspondence only): malformed text at the object API, failures after the decompress-first step. Tie to the source: insert_rr, recompute, rrcount_inc, rrcount_dec and insertion_offset (with the count writers they call) are re-translated from /repo\'s Rust text by rs2lean.py on every run and proved equal to the model functions these theorems are about (Tie/Counts.lean, Tie/Insert.lean: source_insert_rr, source_counts_tie, source_recompute; only Compress::uncompress inside them is the model\'s).',
             "note": NOTE, "technique": 'Lean 4 proof (order of check and modify in the model of each mutator) + step-wise correspondence + abstract-message oracle'},
-    "C11": {"text": "Lean theorems: the cursor protocol on a pointer-free packet object (void cursor restarts the section with the current count, live cursor advances, delete = shrink by the record length + void the cursor + decrement the count + clear the section start at zero) refines an abstract walk-and-delete machine on the list of the section's records, for the three record sections, both public walks and every stream of choices; the list machine terminates ((n+1)^2+n+1 steps), removes exactly the chosen records, never yields a deleted record again, yields every survivor, leaves the survivors in order; the object stays a plain object (count = number of records, emptied section absent, bytes accepted, section starts as a fresh parse reports them), other sections/question/header fields untouched; a second delete reports VoidRecord and changes nothing; the first deletion on a still-compressed object decompresses, carries the cursor and removes exactly that record. The run started on a parsed (possibly compressed) packet is composed from the two phases (walk_delete_parsed). The public next() walk over an additional section holding OPT is proved on plain objects (walk_delete_skipping_opt) and on freshly parsed, possibly compressed packets (walk_delete_parsed_skipping_opt). Question section (KF1): correspondence only. Exhaustive deletion walks (every subset of sections of size 0..5, four sections, two layouts, OPT absent/first/last) compare the real iterators with the model and the walk oracle.",
+    "C11": {"text": "Lean theorems: the cursor protocol on a pointer-free packet object (void cursor restarts the section with the current count, live cursor advances, delete = shrink by the record length + void the cursor + decrement the count + clear the section start at zero) refines an abstract walk-and-delete machine on the list of the section's records, for the three record sections, both public walks and every stream of choices; the list machine terminates ((n+1)^2+n+1 steps), removes exactly the chosen records, never yields a deleted record again, yields every survivor, leaves the survivors in order; the object stays a plain object (count = number of records, emptied section absent, bytes accepted, section starts as a fresh parse reports them), other sections/question/header fields untouched; a second delete reports VoidRecord and changes nothing; the first deletion on a still-compressed object decompresses, carries the cursor and removes exactly that record. The run started on a parsed (possibly compressed) packet is composed from the two phases (walk_delete_parsed). The public next() walk over an additional section holding OPT is proved on plain objects (walk_delete_skipping_opt) and on freshly parsed, possibly compressed packets (walk_delete_parsed_skipping_opt). Question section (KF1): correspondence only. Exhaustive deletion walks (every subset of sections of size 0..5, four sections, two layouts, OPT absent/first/last) compare the real iterators with the model and the walk oracle. Tie to the source: rrcount_dec / rrcount_inc / insertion_offset are re-translated from /repo's text on every run and proved equal to the model's (source_counts_tie).",
             "note": NOTE, "technique": "Lean 4 proof (piece-list representation of pointer-free objects, refinement of the cursor protocol to a list machine, list lemmas) + exhaustive small-scope correspondence + walk oracle"},
     "C12": {"text": "Lean theorems for all header words and all arguments: set_flags changes only bytes 2-3, keeps opcode and rcode (div/mod by position), sets each of QR AA TC RD RA Z AD CD to the argument's bit and ignores the argument's upper half; set_opcode / set_rcode / set_response / set_tid change only their field; every getter returns the stored field. Real behaviour compared with the model and with the frame condition computed from RFC 1035 field positions, exhaustively over all 65536 flag words in the thorough tier. All eleven header getters/setters are translated from /repo's text on every run (rs2lean.py) and proved equal to the model's (Tie/Header.lean); source_set_flags_frame ... source_getters state the frame conditions about the translated code itself.",
             "note": NOTE, "technique": "Lean 4 proof (bitwise frame conditions for every setter and getter, stated also about the functions translated from the source by rs2lean.py) + exhaustive correspondence over flag words + div/mod oracle"},
-    "C13": {"text": "Lean theorems: the record-text grammar is stated declaratively on the text (Spec/RecordText.lean: B* owner B+ ttl B+ IN B+ TYPE B+ rdata B*, host-name labels, decimal numerals with bounds, dotted quads, IPv6 groups with '::', quoted strings with \\DDD escapes, hex digests) together with the RFC 1035 wire form each text stands for; synth t = Ok rr holds exactly for the pairs of that relation (both directions), so excluded text (missing or surplus fields, out-of-range numbers, malformed addresses, unbalanced quotes, odd or non-hex digests) yields an error; synthesis is total; anything returned is a well-formed class-IN record wherever it is placed; inserting it into the answer/authority/additional section of a parsed packet leaves bytes that satisfy the acceptance policy. Real synthesis compared with the model and with an independent Python synthesiser on grammar-derived, damaged and arbitrary texts, every numeric and length limit of the grammar from both sides (DS digests around the 16-bit data length, TXT, names, labels, TTL, preference), and the result inserted into valid packets.",
+    "C13": {"text": "Lean theorems: the record-text grammar is stated declaratively on the text (Spec/RecordText.lean: B* owner B+ ttl B+ IN B+ TYPE B+ rdata B*, host-name labels, decimal numerals with bounds, dotted quads, IPv6 groups with '::', quoted strings with \\DDD escapes, hex digests) together with the RFC 1035 wire form each text stands for; synth t = Ok rr holds exactly for the pairs of that relation (both directions), so excluded text (missing or surplus fields, out-of-range numbers, malformed addresses, unbalanced quotes, odd or non-hex digests) yields an error; synthesis is total; anything returned is a well-formed class-IN record wherever it is placed; inserting it into the answer/authority/additional section of a parsed packet leaves bytes that satisfy the acceptance policy. Real synthesis compared with the model and with an independent Python synthesiser on grammar-derived, damaged and arbitrary texts, every numeric and length limit of the grammar from both sides (DS digests around the 16-bit data length, TXT, names, labels, TTL, preference), and the result inserted into valid packets. Tie to the source: copy_raw_name_from_str (every name of every record goes through it) is re-translated from /repo's text on every run and proved equal to the model's (source_from_text).",
             "note": NOTE + " chomp1 combinator semantics read from the vendored source; Ipv6Addr::from_str modelled.", "technique": "Lean 4 proof (token-level iff lemmas for every parser of the recogniser, grammar relation, piece/assembly lemmas for insertion) + model/implementation correspondence + reference synthesiser oracle"},
-    "C14": {"text": "Lean theorems for all byte strings and zones: the index-based loop of copy_raw_name_from_str is a left-to-right scan; it accepts exactly dot-separated labels of 1..62 dot-free bytes <= 128 (optional final dot; '.' and '' give the root) whose result fits 253 bytes (so every LDH/underscore name within the limits), returns the length-prefixed encoding of exactly those labels followed by 0 or the zone, rejects an empty label, a leading dot, a dot-free run of 63+, a text or result over 253; the result is a valid pointer-free name (labels 1..63, total <= 255) and the name accessor's text for it is the input without its final dot. Real conversion compared with the model exhaustively over a 7-symbol alphabet up to length 4 (quick) / 6 (thorough) with and without zone, boundary lengths; every accepted name is given to a record and read back.",
+    "C14": {"text": "Lean theorems for all byte strings and zones: the index-based loop of copy_raw_name_from_str is a left-to-right scan; it accepts exactly dot-separated labels of 1..62 dot-free bytes <= 128 (optional final dot; '.' and '' give the root) whose result fits 253 bytes (so every LDH/underscore name within the limits), returns the length-prefixed encoding of exactly those labels followed by 0 or the zone, rejects an empty label, a leading dot, a dot-free run of 63+, a text or result over 253; the result is a valid pointer-free name (labels 1..63, total <= 255) and the name accessor's text for it is the input without its final dot. Real conversion compared with the model exhaustively over a 7-symbol alphabet up to length 4 (quick) / 6 (thorough) with and without zone, boundary lengths; every accepted name is given to a record and read back. Tie to the source: copy_raw_name_from_str and raw_name_to_str are re-translated from /repo's text on every run and proved equal to the model functions these theorems are about (source_from_text; C03.source_name_text).",
             "note": NOTE, "technique": "Lean 4 proof (loop = scan refinement, scan soundness/completeness by induction) + exhaustive small-alphabet correspondence + label oracle"},
     "C15": {"text": "Proved on data regenerated from c_abi.rs and c_hook.h on every run: the table's order, count (30) and ABI-class signatures agree with the header and the initialiser follows declaration order. Facade behaviour: hook scripts run through the Rust table and through a C driver compiled against the shipped header (-Wall -Werror), with canaries around caller buffers and announced capacities above what is needed; transcripts must equal each other and the model's (which is the native semantics); oracle rules for the table's own obligations (address length written back, nothing written past it, a record text the grammar accepts is inserted whatever its length, a well-formed raw name / a fully-qualified host name is installed whatever the zone slice holds). Proved on the model of the wrappers: on accepted packets a record's name fits the 256-byte buffer with its NUL (the length assertion cannot fire), an address copy-out is exactly 4 or 16 bytes, the raw-packet copy-out never exceeds the stated capacity.",
             "note": NOTE + " Memory safety of the unsafe blocks is observed (canaries), not verified.", "technique": "Lean decide on translated tables + three-way correspondence (C driver / Rust table / model)"},
